@@ -333,7 +333,7 @@ def _run(plugin, pid, tier, seed, work, violations, known_lines, coverage, repla
                     coverage["unconfirmed_failures"] = coverage.get("unconfirmed_failures", 0) + 1
                     continue
                 obs = again[0][0]
-        if getattr(plugin, "shrink", None) and replay_case is None:
+        if getattr(plugin, "shrink", None) and replay_case is None and not os.environ.get("VERIF_NOSHRINK"):
             case, obs, code = shrink(plugin, pid, exe, work, case, obs, code, sig)
         expected = coq_expected(plugin, plugin.to_coq(case, obs), work)
         p = write_replay(pid, "%s-%d" % (re.sub(r"[^A-Za-z0-9]+", "_", sig)[:40], i),
